@@ -1,6 +1,10 @@
 (* RunC13.v — Tie B entry point of C13: a layer-less archive body read through a source that
    returns at most sched[i] (at least 1) bytes at the i-th read, last entry repeating
    (Stream.Throttled = the harness's ThrottledReader), single reads observed. *)
+From MLA Require Import Limit.
+From MLAGen Require Src.
+(* executable entry points: the production value of BINCODE_MAX_DESERIALIZE (the same in both flavours), file-local *)
+#[local] Instance RUN_LIMIT : Limit := MLAGen.Src.BINCODE_MAX_DESERIALIZE_prod.
 From MLA Require Import Base Stream Inst Run.
 Open Scope N_scope.
 
